@@ -17,6 +17,8 @@ pub struct Report {
     pub skipped_host: u64,
     pub skipped_unsupported: u64,
     pub pre_failed: u64,
+    pub per_kind: HashMap<String, u64>,
+    pub side_obs: u64,
     pub drift_rows: u64,
     pub no_state_row: u64,
     pub states: u64,
@@ -174,7 +176,15 @@ pub fn replay_rows<P: PT, C: Coll<P>>(
     ctx: &Ctx,
     max_mismatch: usize,
     rep: &mut Report,
+    mut side: Option<&mut dyn std::io::Write>,
 ) {
+    // the key universe of the tables: all bit strings up to 3 bits (covers U2 and the base-1 boundary universe)
+    let mut universe: Vec<Vec<u8>> = vec![vec![]];
+    for len in 1..=3u32 {
+        for x in 0..(1u32 << len) {
+            universe.push((0..len).map(|i| ((x >> (len - 1 - i)) & 1) as u8).collect());
+        }
+    }
     let mut cache: HashMap<String, Option<C>> = HashMap::new();
     let mut unsupported_paths: std::collections::HashSet<String> = Default::default();
     // state rows: path -> (tree, accounting) the path must produce
@@ -229,6 +239,12 @@ pub fn replay_rows<P: PT, C: Coll<P>>(
                         "got": {"t": c.tree(ctx), "x": acct(&c.snap())}}));
                 }
             }
+            if !ok {
+                if let Some(side) = side.as_mut() {
+                    c.obs_line(ctx, &universe).map(|l| writeln!(side, "{}", l).unwrap());
+                    rep.side_obs += 1;
+                }
+            }
             cache.insert(key.clone(), if ok { Some(c) } else { None });
         }
         let Some(c0) = cache.get(&key).unwrap() else {
@@ -257,7 +273,12 @@ pub fn replay_rows<P: PT, C: Coll<P>>(
         }
         for (kind, exp, got) in mm {
             rep.mismatch_count += 1;
-            if rep.mismatches.len() < max_mismatch {
+            // keep the first few of every (kind, action): one property's disagreements must not crowd
+            // out another's
+            let slot = format!("{}/{}", kind, row["e"]["a"].as_str().unwrap_or("?"));
+            let n = rep.per_kind.entry(slot).or_default();
+            *n += 1;
+            if *n <= 4 && rep.mismatches.len() < max_mismatch * 8 {
                 rep.mismatches.push(json!({"kind": kind, "h": row["h"], "e": row["e"], "expected": exp, "got": got,
                     "row": {"r": row["r"], "pn": row["pn"], "t": row["t"], "x": row["x"], "f": f, "fx": fx}}));
             }
@@ -269,7 +290,7 @@ pub fn report_json(rep: &Report, ptype: &str, coll: &str) -> Value {
     json!({
         "ptype": ptype, "coll": coll,
         "rows": rep.rows, "executed": rep.executed, "skipped_host": rep.skipped_host,
-        "skipped_unsupported": rep.skipped_unsupported, "pre_failed": rep.pre_failed, "drift_rows": rep.drift_rows, "no_state_row": rep.no_state_row,
+        "skipped_unsupported": rep.skipped_unsupported, "pre_failed": rep.pre_failed, "side_obs": rep.side_obs, "drift_rows": rep.drift_rows, "no_state_row": rep.no_state_row,
         "states": rep.states, "per_action": rep.per_action,
         "mismatch_count": rep.mismatch_count, "mismatches": rep.mismatches, "samples": rep.samples,
     })
